@@ -16,14 +16,15 @@ pub(crate) struct VerifiableEncryptionBuilder<'a> {
     pub(crate) c1: G1Projective,
     pub(crate) c2: G1Projective,
     pub(crate) statement: &'a VerifiableEncryptionStatement<G1Projective>,
-    pub(crate) b: Scalar,
     pub(crate) r: Scalar,
+    /// The ElGamal encryption randomness, independent of every Schnorr nonce
+    pub(crate) k: Scalar,
     pub(crate) decryptable_builder: Option<VerifiableEncryptionDecryptableBuilder>,
 }
 
 impl<S: ShortGroupSignatureScheme> PresentationBuilder<S> for VerifiableEncryptionBuilder<'_> {
     fn gen_proof(self, challenge: Scalar) -> PresentationProofs<S> {
-        let blinder_proof = self.r + challenge * self.b;
+        let blinder_proof = self.r + challenge * self.k;
         let decryptable_scalar_proof = self
             .decryptable_builder
             .map(|b| b.gen_proof(self.statement, challenge));
@@ -48,9 +49,12 @@ impl<'a> VerifiableEncryptionBuilder<'a> {
         transcript: &mut Transcript,
     ) -> CredxResult<Self> {
         let r = Scalar::random(&mut rng);
+        // `b` is the claim's shared Schnorr nonce: it is published as part of the response b + c * m,
+        // so it must not double as the encryption randomness
+        let k = Scalar::random(&mut rng);
 
-        let c1 = G1Projective::GENERATOR * b;
-        let c2 = statement.message_generator * message + statement.encryption_key.0 * b;
+        let c1 = G1Projective::GENERATOR * k;
+        let c2 = statement.message_generator * message + statement.encryption_key.0 * k;
 
         let r1 = G1Projective::GENERATOR * r;
         let r2 = statement.message_generator * b + statement.encryption_key.0 * r;
@@ -63,7 +67,7 @@ impl<'a> VerifiableEncryptionBuilder<'a> {
 
         let decryptable_builder = if statement.allow_message_decryption {
             Some(VerifiableEncryptionDecryptableBuilder::commit(
-                statement, message, b, rng, transcript,
+                statement, message, k, rng, transcript,
             ))
         } else {
             None
@@ -73,8 +77,8 @@ impl<'a> VerifiableEncryptionBuilder<'a> {
             c1,
             c2,
             statement,
-            b,
             r,
+            k,
             decryptable_builder,
         })
     }
@@ -84,6 +88,8 @@ pub(crate) struct VerifiableEncryptionDecryptableBuilder {
     pub(crate) message_bytes: [u8; 32],
     pub(crate) byte_blinders: [Scalar; 32],
     pub(crate) blinder_blinders: [Scalar; 32],
+    /// Schnorr nonces of the bytes, independent of the byte ciphertexts' randomness
+    pub(crate) byte_nonces: [Scalar; 32],
     pub(crate) byte_ciphertext: Ciphertext,
 }
 
@@ -99,6 +105,10 @@ impl VerifiableEncryptionDecryptableBuilder {
         let mut byte_ciphertext = Ciphertext::default();
         let mut byte_blinders = [Scalar::ZERO; 32];
         let mut blinder_blinders = [Scalar::ZERO; 32];
+        let mut byte_nonces = [Scalar::ZERO; 32];
+        for n in byte_nonces.iter_mut() {
+            *n = Scalar::random(&mut rng);
+        }
 
         let shift = Scalar::from(256u16);
         let mut sum = Scalar::ZERO;
@@ -134,7 +144,7 @@ impl VerifiableEncryptionDecryptableBuilder {
                 byte_ciphertext.c2[i].to_compressed().as_slice(),
             );
             let inner_r1 = G1Projective::GENERATOR * blinder_blinders[i];
-            let inner_r2 = statement.message_generator * byte_blinders[i]
+            let inner_r2 = statement.message_generator * byte_nonces[i]
                 + statement.encryption_key.0 * blinder_blinders[i];
 
             transcript.append_message(b"byte_proof_r1", inner_r1.to_compressed().as_slice());
@@ -144,6 +154,7 @@ impl VerifiableEncryptionDecryptableBuilder {
             message_bytes,
             byte_blinders,
             blinder_blinders,
+            byte_nonces,
             byte_ciphertext,
         }
     }
@@ -176,13 +187,14 @@ impl VerifiableEncryptionDecryptableBuilder {
         )
         .expect("range proof to work");
         let mut byte_proofs = [ByteProof::default(); 32];
-        for ((byte_proof, byte_blinder), (message_byte, blinder_blinder)) in byte_proofs
+        for (((byte_proof, byte_blinder), byte_nonce), (message_byte, blinder_blinder)) in byte_proofs
             .iter_mut()
             .zip(self.byte_blinders.iter())
+            .zip(self.byte_nonces.iter())
             .zip(self.message_bytes.iter().zip(self.blinder_blinders.iter()))
         {
             *byte_proof = ByteProof {
-                message: byte_blinder + challenge * Scalar::from(*message_byte),
+                message: byte_nonce + challenge * Scalar::from(*message_byte),
                 blinder: blinder_blinder + challenge * byte_blinder,
             };
         }
